@@ -738,7 +738,11 @@ func (e *emitter) unary(x *operand, emitMask func(string) bool) {
 			e.violate("trim-bounds", "SdkIntTrim result is not within one unit toward zero", withOut(in("SdkIntTrim", x), "result", clip(got.String())))
 		}
 	}
-	if emitMask("OpSdkIntTrim") {
+	// a decimal exponent above 5000 makes the model compute 10^exponent digit by digit in vm_compute
+	// (minutes); such cases stay monitored on the Go side but are not emitted as Coq cases
+	if repOf(x.d).exp > 5000 {
+		e.hist["skipped:trim-huge-exponent"]++
+	} else if emitMask("OpSdkIntTrim") {
 		if panicked {
 			e.emit("OpSdkIntTrim", s1, 0, "(RErr EPanic)", map[string]interface{}{"error_class": "EPanic", "error": "panic"})
 		} else {
